@@ -1927,25 +1927,24 @@ func (a *Agent) TaskPrepare(Command int, Info any, Message *map[string]string, C
 							} else {
 
 								if err != io.EOF {
-
 									/* we failed to read from the socks proxy */
 									logger.Error(fmt.Sprintf("Failed to read from socket %08x: %v", SocketId, err))
-
-									a.SocksClientClose(int32(SocketId))
-
-									/* make a new job */
-									var job = Job{
-										Command: COMMAND_SOCKET,
-										Data: []any{
-											SOCKET_COMMAND_CLOSE,
-											int32(SocketId),
-										},
-									}
-
-									/* append the job to the task queue */
-									a.AddJobToQueue(job)
-
 								}
+
+								/* the client is gone (error or orderly close): drop the socket and tell the agent */
+								a.SocksClientClose(int32(SocketId))
+
+								/* make a new job */
+								var job = Job{
+									Command: COMMAND_SOCKET,
+									Data: []any{
+										SOCKET_COMMAND_CLOSE,
+										int32(SocketId),
+									},
+								}
+
+								/* append the job to the task queue */
+								a.AddJobToQueue(job)
 
 								break
 							}
@@ -6049,7 +6048,19 @@ func (a *Agent) TaskDispatch(RequestID uint32, CommandID uint32, Parser *parser.
 
 							err := socks.SendConnectSuccess(Client.Conn, Client.ATYP, Client.IpDomain, Client.Port)
 							if err == nil {
+								a.SocksCliMtx.Lock()
 								Client.Connected = true
+								a.SocksCliMtx.Unlock()
+							} else {
+								/* the client is already gone: drop the socket and tell the agent */
+								a.SocksClientClose(int32(SocketId))
+								a.AddJobToQueue(Job{
+									Command: COMMAND_SOCKET,
+									Data: []any{
+										SOCKET_COMMAND_CLOSE,
+										int32(SocketId),
+									},
+								})
 							}
 
 						} else {
